@@ -36,13 +36,34 @@ pub struct CreateOp {
     /// denom's decimals; all other fields are then ignored
     #[serde(default)]
     pub register: Option<(String, u8)>,
+    /// Some(pair address): this operation is the owner's MigratePair of a registered pair (to the current
+    /// pair code); all other fields are then ignored
+    #[serde(default)]
+    pub migrate: Option<String>,
 }
 
 fn decode(fw: &FactoryWorld, chunk: &[u64]) -> CreateOp {
     let mut o = Src::new(chunk);
     let uni = fw.universe(true);
     let valid_n = fw.w.natives.len() + fw.w.tokens.len();
-    let kind = o.weighted(&[10, 2, 1, 2, 1, 2]);
+    let kind = o.weighted(&[10, 2, 1, 2, 1, 2, 1]);
+    if kind == 6 {
+        // the owner migrates a registered pair to the current pair code: the registry must not change
+        let addrs: Vec<String> = fw.model.pairs.values().map(|m| m.addr.clone()).collect();
+        if !addrs.is_empty() {
+            let a = addrs[o.idx(addrs.len())].clone();
+            let d = fw.w.natives[0].clone();
+            return CreateOp {
+                sender: fw.w.owner.to_string(),
+                assets: [AssetInfo::NativeToken { denom: d.clone() }, AssetInfo::NativeToken { denom: d }],
+                requirements: haloswap::asset::CreatePairRequirements { whitelist: vec![], first_asset_minimum: cosmwasm_std::Uint128::zero(), second_asset_minimum: cosmwasm_std::Uint128::zero() },
+                commission: None,
+                lp: haloswap::asset::LPTokenInfo { lp_token_name: "halo-lp".into(), lp_token_symbol: "HLP".into(), lp_token_decimals: None },
+                register: None,
+                migrate: Some(a),
+            };
+        }
+    }
     if kind == 5 {
         // the owner re-registers a registered denom with other decimals: pairs created afterwards must
         // record the value registered at THEIR creation
@@ -56,6 +77,7 @@ fn decode(fw: &FactoryWorld, chunk: &[u64]) -> CreateOp {
                 commission: None,
                 lp: haloswap::asset::LPTokenInfo { lp_token_name: "halo-lp".into(), lp_token_symbol: "HLP".into(), lp_token_decimals: None },
                 register: Some((d, o.below(19) as u8)),
+                migrate: None,
             };
         }
     }
@@ -79,7 +101,7 @@ fn decode(fw: &FactoryWorld, chunk: &[u64]) -> CreateOp {
     let requirements = gen_requirements(&mut o, &fw.w);
     let commission = gen_commission(&mut o).map(|c| c.to_string());
     let (lp, _) = gen_lp_info(&mut o);
-    CreateOp { sender, assets: [a, b], requirements, commission, lp, register: None }
+    CreateOp { sender, assets: [a, b], requirements, commission, lp, register: None, migrate: None }
 }
 
 fn play(cfg: &WorldCfg, next: &mut dyn FnMut(&FactoryWorld, usize) -> Option<CreateOp>, want_desc: bool, key: u64) -> CaseResult {
@@ -92,6 +114,25 @@ fn play(cfg: &WorldCfg, next: &mut dyn FnMut(&FactoryWorld, usize) -> Option<Cre
     let mut verdict = Verdict::Pass;
     let mut idx = 0usize;
     while let Some(op) = next(&fw, idx) {
+        if let Some(addr) = op.migrate.clone() {
+            if want_desc {
+                concrete.push(op.clone());
+            }
+            let code = fw.w.codes.pair;
+            let rec = fw.w.exec(Step { sender: fw.w.owner.to_string(), call: Call::Factory { msg: haloswap::factory::ExecuteMsg::MigratePair { contract: addr.clone(), code_id: Some(code) } }, funds: vec![] });
+            if want_desc {
+                log.push(json!({"migrate": addr, "ok": rec.outcome.is_ok()}));
+            }
+            idx += 1;
+            if rec.outcome.is_ok() {
+                classes.push("adm:pair-migrated");
+                if let Err(m) = fw.check_registry(false) {
+                    verdict = Verdict::Fail(format!("after op {} (MigratePair of {}): {}", idx - 1, addr, m));
+                    break;
+                }
+            }
+            continue;
+        }
         if let Some((denom, decimals)) = op.register.clone() {
             if want_desc {
                 concrete.push(op.clone());
@@ -254,5 +295,5 @@ pub fn suites() -> Vec<Suite> {
     }]
 }
 
-pub const RULE: &str = "case = factory world (3-8 native denoms drawn from a 17-name pool with heavy prefix sharing (three names with upper-case letters), in 3/4 of the worlds containing the four splits of one concatenation 'abc|defg' = 'abcd|efg' = 'ab|cdefg' = 'abcde|fg'; 1/6 of the denoms unregistered; 0-3 cw20 tokens; a user address, the factory and a non-existent address posing as tokens) + history of <= 30 CreatePair calls (fresh sets, duplicates in either order, identical assets, invalid assets, non-owner sender; interleaved re-registrations of a registered denom's decimals by the owner; commission absent / in [0,1] / 1 / above 1; whitelist and minimum settings; valid and invalid LP token metadata); after every successful creation every unordered pair of valid assets, and at the end also invalid ones, is looked up in both orders: created sets must resolve to their own pair with a record equal to the pair's self-description and to the creation arguments and true decimals, never-created sets must resolve to nothing, distinct sets never share a pair; refused creations must leave the chain byte-identical; non-trivial = >= 3 successful creations including two sets that share a denom prefix; distinct = hash of the tape";
+pub const RULE: &str = "case = factory world (3-8 native denoms drawn from a 17-name pool with heavy prefix sharing (three names with upper-case letters), in 3/4 of the worlds containing the four splits of one concatenation 'abc|defg' = 'abcd|efg' = 'ab|cdefg' = 'abcde|fg'; 1/6 of the denoms unregistered; 0-3 cw20 tokens; a user address, the factory and a non-existent address posing as tokens) + history of <= 30 CreatePair calls (fresh sets, duplicates in either order, identical assets, invalid assets, non-owner sender; interleaved re-registrations of a registered denom's decimals and migrations of registered pairs by the owner; commission absent / in [0,1] / 1 / above 1; whitelist and minimum settings; valid and invalid LP token metadata); after every successful creation every unordered pair of valid assets, and at the end also invalid ones, is looked up in both orders: created sets must resolve to their own pair with a record equal to the pair's self-description and to the creation arguments and true decimals, never-created sets must resolve to nothing, distinct sets never share a pair; refused creations must leave the chain byte-identical; non-trivial = >= 3 successful creations including two sets that share a denom prefix; distinct = hash of the tape";
 pub const ASSUMPTIONS: &[&str] = &["cw-multi-test chain model (MockApi canonical addresses are fixed-length)", "'creation succeeds only if ...' is asserted as stated (only-if); that a valid fresh set CAN be created is observed through the aliasing checks, not demanded"];
